@@ -24,7 +24,8 @@ CLAIMED = {
                 "the real crates (user attribute laws failing at the k-th update, every k) with full before/after snapshots, diffed "
                 "against the model.",
         "note": "Trusted: Lean kernel + 3 standard axioms; the model of fast-stm's log is hand-written; 'operations are closures over "
-                "the log' is tested (campaign), not proved; kernels join the campaign as their models are added.",
+                "the log' is tested (campaign), not proved; streams: every sew/unsew of every WF 2-map n<=3 x k<=8, transaction "
+                "blocks, 3-map glued-faces family (plain and force_ variants), remeshing kernels.",
         "design_ref": "DESIGN.md §7 C06, §4.1",
     },
     "C08": {
@@ -34,8 +35,9 @@ CLAIMED = {
                 "log semantics fast-stm implements. Tie: every generated straight-line program is executed on the real crates both ways "
                 "from the same state and compared with each other and with the model.",
         "note": "Trusted: Lean kernel + 3 standard axioms; hand-written model of the log; that real operations read shared state only "
-                "through the transaction is tested by the differential run, not proved (3-D three_sew and the vertex-insertion kernel "
-                "are known exceptions, reported as findings once those streams are enabled).",
+                "through the transaction is tested by the differential run, not proved (the two exceptions it found — 3-D three_sew/"
+                "three_unsew walking with orbit(), D4, and the vertex-insertion kernels testing spare darts with is_free, D3 — were repaired "
+                "in /repo); streams: 2-D and 3-D core programs, vertex insertion / triangulation kernels, remeshing kernels.",
         "design_ref": "DESIGN.md §7 C08, §4.1",
     },
     "C18": {
@@ -49,6 +51,33 @@ CLAIMED = {
         "note": "Trusted: Lean kernel + 3 standard axioms; hand-written model of allocation (Vec growth = array append); known finding D10.",
         "design_ref": "DESIGN.md §7 C18",
     },
+    "C02": {
+        "text": "Lean 4 theorems: every modelled editing call of CMap3 (link/unlink/sew/unsew in dimensions 1, 2, 3, force_ forms, dart "
+                "allocation and removal) preserves WF 4 under the property's argument guard AND the mirror condition of 3-glued faces "
+                "(closed and open faces), lifted to every finite history by induction (C02_history_preserves_WF_and_Mirror); a request to "
+                "3-link/3-sew faces that cannot be mirrored (closed/closed of different lengths, closed/open, open/open with different "
+                "numbers of darts ahead or behind) is refused with an error (C02_refusal, C02_refusal_sew) and a refused or failed call "
+                "changes nothing; removed darts are nobody's image. Tie: exhaustive WF 3-maps n<=3, glued-faces family, random and "
+                "polyhedra histories, composed transactions on the real CMap3 vs the model; WF and Mirror evaluated on the real map.",
+        "note": "Trusted: Lean kernel + 3 standard axioms; hand-written model (Model/Ops3.lean). Defect D1/D1b (three_link accepted "
+                "non-mirrorable faces) found and repaired (243b216).",
+        "design_ref": "DESIGN.md §7 C02, §13",
+    },
+    "C05": {
+        "text": "Lean 4 theorems: a successful 3-D sew/unsew of dimension 1, 2, 3 has exactly the topology of the link/unlink (six "
+                "C05_*_topology theorems); data placement per storage (MergedIn/SplitIn: new id carries merge* of the two old values, old "
+                "ids cleared, all other slots unchanged) for 1-sew/1-unsew, the four arms of 2-sew, 2-unsew, and for 3-sew/3-unsew as "
+                "chains of merges over the collected (edge, edge) and (vertex, vertex) id pairs, with the proviso theorem for pairwise "
+                "disjoint pairs; at CELL level for 1-sew/1-unsew on every WF 4 map, open faces included (C05_oneSew3_cells, "
+                "C05_oneUnsew3_cells: ids = cell minima, new cell = union, nothing else changes; needs the repaired vertex orbit, D13). "
+                "Tie: polyhedral complexes (hexahedra, tetrahedra, prisms, pyramids; rings of tets/cubes closing around an edge), glued "
+                "faces families, histories and tx blocks with free-term attribute values on the real CMap3 vs the model; Python oracle "
+                "recomputes cells independently and checks placement, round trips and 'unsew succeeds on embedded meshes'.",
+        "note": "Trusted: Lean kernel + 3 standard axioms; hand-written model. NOT proved: cell-level identification for 2- and 3-(un)sews "
+                "(several simultaneous pairs), chains touching one cell twice (outside the property's proviso), 'unsew always succeeds on "
+                "an embedded mesh' (oracle only). Defects found and repaired: three_unsew max/min (af9cf00), D4 (f79acf8), D13 (e8bc83e).",
+        "design_ref": "DESIGN.md §7 C05, §13",
+    },
     "C03": {
         "text": "Lean 4 theorems (2-D): a generic BFS lemma (result starts with the dart, no duplicates, no null dart, exactly the "
                 "reachable non-null darts, fuel n+1 suffices) instantiated for every orbit policy incl. arbitrary Custom slices; on WF "
@@ -57,8 +86,10 @@ CLAIMED = {
                 "yield exactly the ids of in-use darts; linear policies agree on closed cells; transactional = plain. Tie: exhaustive "
                 "WF 2-maps n<=4 x all darts x 14 policies x all id/iterator calls on the real CMap2 vs the model, plus an independent "
                 "Python closure oracle.",
-        "note": "Trusted: Lean kernel + 3 standard axioms; hand-written model. The 3-D clauses (CMap3 orbits/ids/iterators) are covered by "
-                "the correspondence stream only (no theorem yet).",
+        "note": "Trusted: Lean kernel + 3 standard axioms; hand-written model. 3-D: vertex_id_transac returns the minimum of the vertex "
+                "cell on every WF 4 map (C05_vertexId3_is_cell_min, after repair of D13); the other 3-D clauses (CMap3 orbits, edge/face/"
+                "volume ids, iterators) are covered by the correspondence stream + Python closure oracle on exhaustive small 3-maps, glued "
+                "faces families and polyhedra (defects D13, D14 found this way were repaired).",
         "design_ref": "DESIGN.md §7 C03, Appendix A2",
     },
     "C04": {
@@ -69,8 +100,10 @@ CLAIMED = {
                 "split*; BadGeometry refusal exactly when all four coordinates are defined and the direction test fails; a rejected law "
                 "fails the call. Tie: exhaustive WF 2-maps n<=3/4 x all sews x value patterns with free-term attribute values on the "
                 "real CMap2 vs the model; Python oracle recomputes CELLS independently and checks merge/split placement per cell.",
-        "note": "Trusted: Lean kernel + 3 standard axioms; hand-written model. Not proved: that the computed ids are the cells' minima "
-                "before/after a link combine as 'new cell = union of two old cells' (cell calculus) — evaluated by the oracle on the real code.",
+        "note": "Trusted: Lean kernel + 3 standard axioms; hand-written model. Cell level (Props/C04Cells*.lean, cell calculus in "
+                "Lemmas/CellCalc.lean): for 1-sew, 1-unsew, 2-sew of two darts with successors and every arm of 2-unsew the computed ids ARE "
+                "the minima of the cells and 'new cell = union of the two old cells, every other cell unchanged' is a theorem; for the "
+                "three degenerate 2-sew arms (a dart without successor) the identification is evaluated by the oracle only.",
         "design_ref": "DESIGN.md §7 C04",
     },
     "C09": {
@@ -85,16 +118,15 @@ CLAIMED = {
         "design_ref": "DESIGN.md §7 C09",
     },
     "C10": {
-        "text": "Lean 4 theorems: the loader model (mirroring build_2d_from_cmap_file) is proved UNSOUND by nine concrete negation witnesses "
-                "(one per failure class: out-of-range image, non-inverse b0/b1, asymmetric b2, ignored null column, linked/repeated unused "
-                "id -> panic, id >= n -> panic, vertex on null/removed dart), and SOUND under the explicit validator validFile (for all "
-                "sizes: validFile f -> build f = ok m with WF 3 m agreeing with the text, no panic). Tie: mutation streams and random "
-                "texts on the real loader vs the model; oracle on the real result (error, or WF map agreeing with the text). The seven "
-                "failure classes are genuine defects recorded as known findings D5a-D5g (each with its own matcher).",
-        "note": "Trusted: Lean kernel + 3 standard axioms; hand-written model. The property is FALSE on the current tree (known findings "
-                "D5a-g, not repaired: the repair is a validation pass of ~50 lines, judged too invasive for this round); any failure outside "
-                "those classes is a violation.",
-        "design_ref": "DESIGN.md §7 C10, §8 D5",
+        "text": "Lean 4 theorems over the loader model (mirroring build_2d_from_cmap_file after the repair of D5, commit 7170072): for EVERY "
+                "token text the loader returns an error or a map m with WF 3 m that agrees with the text (C10_load_wf_or_error), never a "
+                "panic; under the explicit validator validFile it succeeds; the nine pre-repair failure classes (out-of-range image, "
+                "non-inverse b0/b1, asymmetric b2, ignored null column, linked/repeated unused id, id >= n, vertex on null/removed dart) "
+                "are rejected with an error. Tie: mutation streams and random texts on the real loader vs the model; oracle on the real "
+                "result (error, or WF map agreeing with the text).",
+        "note": "Trusted: Lean kernel + 3 standard axioms; hand-written token-level model; tokenisation (split_whitespace, str::parse) "
+                "validated, not proved. The seven defect classes D5a-g found here were repaired in /repo by one fix: commit.",
+        "design_ref": "DESIGN.md §7 C10, §13.3",
     },
     "C12": {
         "text": "Lean 4 theorems for ALL nx, ny(, nz) >= 1 over the beta tables REGENERATED from grid.rs on every run (tools/gen_lean.py): WF of "
@@ -140,12 +172,15 @@ CLAIMED = {
                 "sequential execution of the committed transactions in commit order (C07_serializable, via T3: a validated commit is a "
                 "sequential run on the current memory); memory changes only at validated commits; the same serializability theorem at LOCK "
                 "granularity (C07_serializable_B: commit takes one lock at a time, validates under the lock, blocks on incompatible "
-                "locks; lock exclusivity is an invariant). Tie: a deterministic schedule explorer "
+                "locks, for every lock order; lock exclusivity is an invariant; with the address order of the real commit no reachable "
+                "state has all unfinished threads waiting for a lock: C07_no_deadlock_B). Tie: a deterministic schedule explorer "
                 "runs REAL honeycomb transactions on real OS threads over a byte-checked vendored fast-stm with cooperative yield points "
                 "(DFS with preemption bound, random, PCT); every distinct outcome must be free of panic/hang/deadlock, equal a real "
                 "sequential run in commit order, equal the Lean model's sequential run in commit order, and be well-formed.",
         "note": "Trusted: Lean kernel + 3 standard axioms; the protocol model is hand-written after fast-stm 0.5.0; one thread runs at a "
-                "time in the explorer. NOT covered: deadlock-freedom of the lock acquisition order, the individual stores of the final "
+                "time in the explorer. Deadlock freedom IS proved for the lock-granularity model with locks taken in one global order "
+                "(C07_no_deadlock_B; the unordered variant deadlocks, decide example). NOT covered: livelock/fair termination of the retry "
+                "loop, parking_lot queueing, the individual stores of the final "
                 "publish step, memory ordering, wait_for_change wake-ups; the premise that operations access shared memory only through Transaction::read/write is "
                 "tested by the explorer (defects D3/D4 found this way were repaired).",
         "design_ref": "DESIGN.md §7 C07, §4.1",
